@@ -503,7 +503,7 @@ FZ_SETTINGS = {"form_title": ["T", "${q}", "<b>"], "form_id": ["f", "a b", "1a"]
                "public_key": ["abc"], "submission_url": ["http://x/y?a=1&b=2"], "auto_send": ["yes", "x"], "auto_delete": ["true", "no"],
                "namespaces": ['a="http://x"', "a=b", "a", '="x"', 'a="http://x" a="http://y"', 'a:b="x"', '1a="http://x"', 'xmlns="http://x"'],
                "style": ["pages", "theme-grid x"], "instance_name": ["concat('a',${q})", "${nope}", "'x'"], "instance_id": ["uid", "x y"], "instance_xmlns": ["http://x", "a b"],
-               "omit_instanceID": ["yes", "no", "x"], "allow_choice_duplicates": ["yes", "bob"], "name": ["data", "1a", "a b", "meta"], "sms_keyword": ["k"], "attribute::x": ["v"],
+               "omit_instanceID": ["yes", "no", "x"], "allow_choice_duplicates": ["yes", "bob"], "name": ["data", "1a", "a b", "meta", "a:b:c", "a:", ":a", "a::b", "-x", "2x"], "sms_keyword": ["k"], "attribute::x": ["v"],
                "attribute::a b": ["v"], "attribute::a:b": ["v"], "clean_text_values": ["no", "yes"], "flat": ["yes"], "id_string": ["x"], "title": ["t"]}
 FZ_CHOICE_COLS = ["label", "label::en", "label::fr", "image", "media::image", "media::image::en", "audio", "video", "big-image", "media::big-image::fr", "cf", "x y", "1a", "name", "value",
                   "list name", "list_name", "sms_option", "geometry", "label::", "::en", "media::", "jr", "a:b"]
